@@ -33,9 +33,11 @@ RULE = ("random scripts N=8..40 indices; distinct = canonical script JSON; non-t
         "where the fallback is valid and started, and primary valid again later (or closed)")
 REQUIRED_BUCKETS = ["primary-closed", "primary-raises", "fallback-closed", "fallback-late-start", "lag:-1", "lag:0",
                     "lag:1", "lag:2", "recovery-to-primary", "both-invalid", "fallback-value-used",
-                    "primary-closed-before-any-failure", "other-terms:0", "other-terms:2"]
+                    "primary-closed-before-any-failure", "other-terms:0", "other-terms:2",
+                    "tier-B(real FallbackFormulaMetricFetcher)"]
 REQUIRED_COUNTERS = ["outputs_decoded", "scripts_run"]
-ASSUMPTIONS = ["tier A only: the fallback is a test double at the public FallbackMetricFetcher seam"]
+ASSUMPTIONS = ["tier A: the fallback is a test double at the public FallbackMetricFetcher seam; tier B: real PVPowerFormula + "
+               "FallbackFormulaMetricFetcher over a fake resampler (registry channels served per ComponentMetricRequest)"]
 
 TAIL = 6
 
@@ -63,6 +65,13 @@ def gen(rng: Any, tier: str, i: int) -> Any:
     q = rng.choice([0.6, 0.9, 1.0, 1.0])
     fmask = [rng.random() < q for _ in range(N)]
     fault = rng.choice([None, None, "close_primary", "close_primary", "raise_primary", "close_fallback"])
+    if rng.random() < 0.3:
+        # tier B: the real PVPowerFormula with its real FallbackFormulaMetricFetcher over a fake resampler
+        return {"tier": "B", "N": N, "pmask": pmask, "fmask": [True] * N, "lag": 0, "fallback_skip": 0, "n_other": 1,
+                "fault": rng.choice([None, None, "close_primary"]), "fault_at": rng.randint(0, N - 1),
+                "yields": [rng.choice([0, 0, 1, 3, 10]) for _ in range(N + TAIL + 3)],
+                "order": [rng.random() < 0.5 for _ in range(N + TAIL + 3)],
+                "enc": [rng.choice(["none", "nan", "inf"]) for _ in range(N)]}
     return {"N": N, "pmask": pmask, "fmask": fmask, "lag": rng.choice([-1, 0, 0, 1, 2]),
             "fallback_skip": rng.choice([0, 0, 0, 1, 3, 5]), "n_other": rng.choice([0, 1, 1, 2]),
             "fault": fault, "fault_at": rng.randint(0, N - 1) if fault else None,
@@ -218,6 +227,93 @@ async def _drive(case: dict[str, Any], out: dict[str, Any]) -> None:
         pass
 
 
+async def _drive_b(case: dict[str, Any], out: dict[str, Any]) -> None:
+    """Tier B: grid -> meter 2 -> {PV meter 3 -> inverters 4, 5 ; PV meter 6 -> inverter 7}. The engine is built by
+    the real PVPowerFormula (allow_fallback=True); a fake resampler serves every ComponentMetricRequest that the
+    engines send (the primary engine at start, the fallback engine when it is lazily started)."""
+    from unittest.mock import MagicMock  # noqa: F401
+
+    from frequenz.channels import Broadcast
+    from frequenz.client.microgrid import (Component, ComponentCategory, Connection,
+                                           InverterType)
+    from frequenz.quantities import Quantity
+
+    import frequenz.sdk.microgrid  # noqa: F401  (must be imported first: circular imports in the SDK)
+    from frequenz.sdk._internal._channels import ChannelRegistry
+    from frequenz.sdk.timeseries import Sample
+    from frequenz.sdk.timeseries.formula_engine._formula_generators import (FormulaGeneratorConfig,
+                                                                            PVPowerFormula)
+
+    from .. import fakes
+
+    C = ComponentCategory
+    comps = [Component(1, C.GRID), Component(2, C.METER), Component(3, C.METER), Component(6, C.METER),
+             Component(4, C.INVERTER, InverterType.SOLAR), Component(5, C.INVERTER, InverterType.SOLAR),
+             Component(7, C.INVERTER, InverterType.SOLAR)]
+    conns = [Connection(1, 2), Connection(2, 3), Connection(2, 6), Connection(3, 4), Connection(3, 5), Connection(6, 7)]
+    fakes.install_connection_manager(comps, conns)
+    N = case["N"]
+    total = N + TAIL
+    reg = ChannelRegistry(name="reg")
+    sub = Broadcast(name="sub")
+    sub_rx = sub.new_receiver(limit=1000)
+    log: dict[str, Any] = {"fallback_sent": 0}
+    out["log"] = log
+    eng = PVPowerFormula("ns", reg, sub.new_sender(), FormulaGeneratorConfig(component_ids=None, allow_fallback=True)).generate()
+    out["formula_str"] = str(eng)
+    rx = eng.new_receiver(max_size=1000)
+    await asyncio.sleep(0.001)
+    subs: list[Any] = []  # (component id, sender, channel)
+    pm = case["pmask"] + [True] * TAIL
+    enc = case["enc"] + ["none"] * TAIL
+    outs: list[Any] = []
+    closed = False
+
+    def value(cid: int, k: int) -> Any:
+        if cid == 3:
+            if pm[k]:
+                return Quantity(float(1000 + k))
+            return None if enc[k] == "none" else Quantity(float(enc[k]))
+        return Quantity({4: 1500.0 + k, 5: 500.0, 6: (k + 1) * 1e4, 7: 77.0}[cid])
+
+    for k in range(total):
+        while sub_rx._q:  # noqa: SLF001  (new subscriptions are served from the next tick on, like the resampler)
+            req = sub_rx.consume()
+            ch = reg.get_or_create(Sample[Quantity], req.get_channel_name())
+            subs.append((req.component_id, ch.new_sender(), ch, req.namespace))
+            if req.component_id in (4, 5) and "fallback_received" not in log:
+                log["fallback_received"] = list(range(k, total))
+                log["started_at_sent"] = k
+        ts = fm.T0 + timedelta(seconds=k)
+        order = sorted(subs, key=lambda x: (x[0] in (4, 5)) != case["order"][k])
+        for cid, tx, ch, _ns in order:
+            if cid == 3 and case["fault"] == "close_primary" and k >= case["fault_at"]:
+                if not closed:
+                    await ch.close()
+                    closed = True
+                continue
+            await tx.send(Sample(ts, value(cid, k)))
+        for _ in range(case["yields"][min(k, len(case["yields"]) - 1)]):
+            await asyncio.sleep(0)
+        for _ in range(400):
+            while rx._q:  # noqa: SLF001
+                outs.append(rx.consume())
+            if len(outs) >= min(k, total - 1) - 3:
+                break
+            await asyncio.sleep(0.001)
+    await asyncio.sleep(0.5)
+    while sub_rx._q:  # noqa: SLF001
+        sub_rx.consume()
+    while rx._q:  # noqa: SLF001
+        outs.append(rx.consume())
+    out["outs"] = [(round((s.timestamp - fm.T0).total_seconds()), None if s.value is None else s.value.base_value)
+                   for s in outs]
+    try:
+        await eng._stop()  # noqa: SLF001
+    except Exception:  # pylint: disable=broad-except
+        pass
+
+
 def check(case: dict[str, Any], rec: Any) -> None:
     N, pm, fmk = case["N"], case["pmask"], case["fmask"]
     rec.bucket(f"lag:{case['lag']}")
@@ -235,7 +331,11 @@ def check(case: dict[str, Any], rec: Any) -> None:
         rec.bucket("fallback-closed")
     out: dict[str, Any] = {}
     mon = LoopMonitor()
-    run_virtual(lambda: _drive(case, out), monitor=mon)
+    if case.get("tier") == "B":
+        rec.bucket("tier-B(real FallbackFormulaMetricFetcher)")
+        run_virtual(lambda: _drive_b(case, out), monitor=mon)
+    else:
+        run_virtual(lambda: _drive(case, out), monitor=mon)
     rec.count("scripts_run")
     log = out["log"]
     outs = out["outs"]
